@@ -11,6 +11,7 @@ import (
 	"time"
 
 	"github.com/ipfs/go-datastore"
+	contextds "github.com/ipfs/go-datastore/context"
 
 	"github.com/celestiaorg/go-header"
 )
@@ -60,12 +61,17 @@ func (s *Store[H]) deleteSingle(
 	hash, err := s.heightIndex.HashByHeight(ctx, height, false)
 	if errors.Is(err, datastore.ErrNotFound) {
 		// the header may not be flushed yet and thus be absent from the height index
-		h := s.pending.GetByHeight(height)
-		if h.IsZero() {
+		if h := s.pending.GetByHeight(height); !h.IsZero() {
+			hash, err = h.Hash(), nil
+		} else {
+			// ... or it was flushed after the read transaction of this deletion had been opened:
+			// look at the datastore as it is now
+			hash, err = s.heightIndex.HashByHeight(contextds.WithRead(ctx, nil), height, false)
+		}
+		if errors.Is(err, datastore.ErrNotFound) {
 			// a dedicated error, so that a handler's own not-found error is never mistaken for it
 			return nil, fmt.Errorf("hash by height %d: %w", height, errMissingHeader)
 		}
-		hash, err = h.Hash(), nil
 	}
 	if err != nil {
 		return nil, fmt.Errorf("hash by height %d: %w", height, err)
